@@ -30,6 +30,33 @@ fn cache_level(bytes: &[u8], name: &str) -> Option<(Option<u32>, Vec<u8>)> {
     match r { Ok(x) => x, Err(_) => Some((None, b"<<panic>>".to_vec())) }
 }
 
+/// the hit path of the server: `get_stdout`, `get_stderr`, then `extract_objects` of every output (some optional)
+/// into `dir`. None = the restore failed (request treated as a miss); Some = (stdout, stderr, per output: bytes and mode or absent)
+#[allow(clippy::type_complexity)]
+fn composite(bytes: &[u8], outputs: &[(String, bool)], dir: &std::path::Path, rt: &tokio::runtime::Runtime) -> Option<(Vec<u8>, Vec<u8>, Vec<Option<(Vec<u8>, u32)>>)> {
+    use sccache::verif::FileObjectSource;
+    use std::os::unix::fs::PermissionsExt;
+    let _ = std::fs::remove_dir_all(dir); std::fs::create_dir_all(dir).unwrap();
+    let objs: Vec<FileObjectSource> = outputs.iter().enumerate().map(|(i, (k, opt))| FileObjectSource { key: k.clone(), path: dir.join(format!("o{}", i)), optional: *opt }).collect();
+    let r = std::panic::catch_unwind(std::panic::AssertUnwindSafe(|| {
+        let mut r = CacheRead::from(Cursor::new(bytes.to_vec())).ok()?;
+        let (so, se) = verif_harness_streams(&mut r)?;
+        rt.block_on(r.extract_objects(objs, rt.handle())).ok()?;
+        Some((so, se))
+    }));
+    let (so, se) = match r { Ok(x) => x?, Err(_) => return Some((b"<<panic>>".to_vec(), vec![], vec![])) };
+    let files = (0..outputs.len()).map(|i| { let p = dir.join(format!("o{}", i)); std::fs::read(&p).ok().map(|b| (b, std::fs::metadata(&p).unwrap().permissions().mode() & 0o7777)) }).collect();
+    Some((so, se, files))
+}
+/// `get_stdout` / `get_stderr` (signature-agnostic: Vec<u8> in the pinned code, Result<Vec<u8>> after the repair)
+fn verif_harness_streams(r: &mut CacheRead) -> Option<(Vec<u8>, Vec<u8>)> {
+    trait Bytes { fn b(self) -> Option<Vec<u8>>; }
+    impl Bytes for Vec<u8> { fn b(self) -> Option<Vec<u8>> { Some(self) } }
+    impl<E> Bytes for Result<Vec<u8>, E> { fn b(self) -> Option<Vec<u8>> { self.ok() } }
+    let so = r.get_stdout().b()?; let se = r.get_stderr().b()?;
+    Some((so, se))
+}
+
 const NAMES: [&str; 9] = ["obj", "dwo", "gcno", "libfoo-0123456789abcdef.rlib", "d\u{e9}p.d", "a b/c.o", "", "x", "rmeta"];
 const MODES: [u32; 6] = [0o100644, 0o100755, 0o100600, 0o104755, 0o100000, 0o100777];
 
@@ -99,6 +126,9 @@ fn main() {
             }
             // ---- (2)+(3) exhaustive truncations and substitutions on small entries
             let (mut cases, mut fail, mut same, mut diff, mut incons) = (0u64, 0u64, 0u64, 0u64, 0u64);
+            let (mut comp_cases, mut comp_fail, mut comp_same, mut comp_diff) = (0u64, 0u64, 0u64, 0u64); let mut comp_reported = std::collections::HashSet::new();
+            let rt = tokio::runtime::Builder::new_multi_thread().worker_threads(2).enable_all().build().unwrap();
+            let comp_tmp = tempfile::tempdir().unwrap(); let comp_dir = comp_tmp.path().join("x");
             for e in 0..nf {
                 let (members, good) = gen_entry(&mut rng, 40, e == nf - 1);
                 let mut variants: Vec<(Vec<u8>, String)> = vec![(good.clone(), "intact".into())];
@@ -110,7 +140,40 @@ fn main() {
                         let mut b = good.clone(); b[p] = v; variants.push((b, format!("subst@{}={}", p, v)));
                     }
                 }
+                let outputs: Vec<(String, bool)> = members.iter().filter(|m| m.name != "stdout" && m.name != "stderr").map(|m| (m.name.clone(), rng.chance(1, 2))).collect();
+                let orig_stream = |n: &str| members.iter().find(|m| m.name == n).map(|m| m.content.clone()).unwrap_or_default();
                 for (bytes, kind) in variants {
+                    // ---- the restore as the server performs it on a hit: all or nothing, and nothing but the original
+                    comp_cases += 1;
+                    match composite(&bytes, &outputs, &comp_dir, &rt) {
+                        None => comp_fail += 1,
+                        Some((so, se, files)) => {
+                            let mut bad: Vec<String> = vec![];
+                            // a member whose *name* no longer appears in the central directory cannot be told from one that was never stored
+                            let in_dir = |n: &str| zip::ZipArchive::new(Cursor::new(bytes.clone())).map(|z| z.file_names().any(|x| x == n)).unwrap_or(false);
+                            let mut lost_named = 0; let mut lost_renamed = 0;
+                            if so.is_empty() && !orig_stream("stdout").is_empty() { if in_dir("stdout") { lost_named += 1 } else { lost_renamed += 1 } }
+                            if se.is_empty() && !orig_stream("stderr").is_empty() { if in_dir("stderr") { lost_named += 1 } else { lost_renamed += 1 } }
+                            if so != orig_stream("stdout") { bad.push(format!("stdout: {} bytes instead of {}", so.len(), orig_stream("stdout").len())); }
+                            if se != orig_stream("stderr") { bad.push(format!("stderr: {} bytes instead of {}", se.len(), orig_stream("stderr").len())); }
+                            let mut aliased = false;
+                            for (i, (name, opt)) in outputs.iter().enumerate() {
+                                let m = members.iter().find(|m| &m.name == name).unwrap();
+                                match files.get(i).and_then(|x| x.as_ref()) {
+                                    None => { if in_dir(name) { lost_named += 1 } else { lost_renamed += 1 } bad.push(format!("output {:?} ({}) was not restored", name, if *opt { "optional" } else { "required" })) }
+                                    Some((b, _)) if *b != m.content => { if members.iter().any(|o| o.name != m.name && o.content == *b) { aliased = true; } bad.push(format!("output {:?}: {} bytes instead of the original {}", name, b.len(), m.content.len())) }
+                                    Some(_) => {}
+                                }
+                            }
+                            if bad.is_empty() { comp_same += 1; } else {
+                                comp_diff += 1;
+                                let k = if aliased { "member_aliasing" } else if lost_named > 0 { "restore_incomplete" } else if lost_renamed > 0 && lost_renamed == bad.len() { "restore_incomplete_renamed_member" } else { "different_contents" };
+                                if comp_reported.insert((k, kind.split('@').next().unwrap().to_string(), bad[0].split(':').next().unwrap().to_string())) {
+                                    fails.push(fail_json(k, &format!("{}: the restore succeeded (cache hit) but {}", kind.split('=').next().unwrap(), bad.join("; ")), &[hex(&bytes), format!("outputs (name, optional): {:?}", outputs), format!("members: {}", members.iter().map(|m| format!("{:?}:{}B", m.name, m.content.len())).collect::<Vec<_>>().join(", "))], ""));
+                                }
+                            }
+                        }
+                    }
                     for m in &members {
                         cases += 1;
                         let z = zip_level(&bytes, &m.name);
@@ -135,8 +198,8 @@ fn main() {
                     }
                 }
             }
-            std::fs::write(&a[7], format!("{{\"writer_entries\":{},\"large_entries\":{},\"roundtrip_members\":{},\"fault_entries\":{},\"fault_cases\":{},\"cacheread_fail\":{},\"cacheread_identical\":{},\"cacheread_different\":{},\"inconsistent_with_zip_plus_zstd\":{},\"monitor_failures\":[{}],\"samples\":[{}]}}",
-                nw, big, rt_members, nf, cases, fail, same, diff, incons, fails.join(","), samples.iter().map(|s| jstr(s)).collect::<Vec<_>>().join(","))).unwrap();
+            std::fs::write(&a[7], format!("{{\"restore_cases\":{},\"restore_failed\":{},\"restore_identical\":{},\"restore_different\":{},\"writer_entries\":{},\"large_entries\":{},\"roundtrip_members\":{},\"fault_entries\":{},\"fault_cases\":{},\"cacheread_fail\":{},\"cacheread_identical\":{},\"cacheread_different\":{},\"inconsistent_with_zip_plus_zstd\":{},\"monitor_failures\":[{}],\"samples\":[{}]}}",
+                comp_cases, comp_fail, comp_same, comp_diff, nw, big, rt_members, nf, cases, fail, same, diff, incons, fails.join(","), samples.iter().map(|s| jstr(s)).collect::<Vec<_>>().join(","))).unwrap();
         }
         Some("cmp") => {
             let r = std::fs::read_to_string(&a[2]).unwrap(); let m = std::fs::read_to_string(&a[3]).unwrap();
